@@ -160,4 +160,45 @@ theorem no_misdelivery (me : Node) (cfg : NodeCfg) (p : Packet)
         · cases h
         · split at h <;> cases h
 
+theorem addresseesFrom_not_mem (k : Nat) (ids : List Node) (t : Node) (h : t ∉ ids) : addresseesFrom k ids t = [] := by
+  induction ids generalizing k with
+  | nil => rfl
+  | cons id rest ih =>
+    simp only [List.mem_cons, not_or] at h
+    have hne : ¬ id = t := fun e => h.1 e.symm
+    simp [addresseesFrom, hne, ih (k + 1) h.2]
+
+/-- **addressee_unique.** In a mesh whose node IDs are pairwise different as byte strings — IDs that differ only in
+letter case included — a datagram addressed to a node is treated as local by that node and by no other. -/
+theorem addressee_unique (ids : List Node) (h : ids.Nodup) (to : Nat) (hto : to < ids.length) :
+    addressees ids ids[to] = [to] := by
+  have gen : ∀ (ids : List Node) (k to : Nat) (hto : to < ids.length), ids.Nodup →
+      addresseesFrom k ids ids[to] = [k + to] := by
+    intro ids
+    induction ids with
+    | nil => intro k to hto; simp at hto
+    | cons id rest ih =>
+      intro k to hto hnd
+      have hnd' := List.nodup_cons.mp hnd
+      cases to with
+      | zero =>
+        simp only [List.getElem_cons_zero, addresseesFrom, if_true, Nat.add_zero]
+        rw [addresseesFrom_not_mem (k + 1) rest id hnd'.1]
+        rfl
+      | succ j =>
+        have hj : j < rest.length := by simpa using hto
+        simp only [List.getElem_cons_succ, addresseesFrom]
+        have hne : ¬ id = rest[j] := by
+          intro e
+          exact hnd'.1 (e ▸ List.getElem_mem hj)
+        simp only [hne, if_false, List.nil_append]
+        rw [ih (k + 1) j hj hnd'.2]
+        congr 1
+        omega
+  have := gen ids 0 to hto h
+  simpa [addressees] using this
+
+/-- Non-vacuity: IDs differing only in case are different nodes -/
+example : addressees [[104, 117, 98], [72, 85, 66], [72, 117, 98]] [72, 85, 66] = [1] := by decide
+
 end Receptor.C02
